@@ -196,4 +196,20 @@ PROPS = {
         "thorough": {"cases": 6000, "shards": 16, "shrinktime": "180s", "timeout_s": 3000},
         "assumptions": RUN_ASSUME + ["cancelled runs are only required to return (their result is C06's subject)"],
     },
+    "C09": {
+        "test": "TestC09", "binary": "sched", "level": "exploration", "enumerative": True, "exhaustive_in": "thorough",
+        "rule": "(1) single-site sweep: for every schedule point the instrumenter inserts into workflow.go and the two providers (lock, unlock, "
+                "channel send / receive, select and wake-up, wait-group, cancel, goroutine start, entry of every run-loop / running-step method; "
+                "~285 sites) a 60 ms delay on the first 3 hits - longer than the fallback detector's 3 x 10 ms window - on each of 14 canonical "
+                "workflows whose meaning fixes one result (single, chain, wait_for, enabled from upstream, deploy expression, diamond, failing "
+                "prerequisite, crash, deploy failure, disabled + or-disabled, one-of consumer, wait-optional with failing source, foreach, nested "
+                "foreach); quick = a VERIF_SEED-chosen quarter of the sites, thorough = all (exhaustive). (2) rapid: random deterministic "
+                "single-output programs under random plans of 1-6 sites with 1-40 ms delays. oracle: the result equals the reference (in "
+                "particular never 'no steps running' when the result is producible). non-trivial = the planned site was hit in the run; distinct "
+                "= FNV-64 of (program, plan)",
+        "quick": {"cases": 240, "shards": 16, "shrinktime": "30s", "timeout_s": 900},
+        "thorough": {"cases": 3200, "shards": 16, "shrinktime": "120s", "timeout_s": 3000},
+        "assumptions": RUN_ASSUME + ["schedule points are source-level; preemption inside a statement or inside library code is not explored",
+                                     "the three sites of open finding K6r are excluded from the sweep and counted"],
+    },
 }
